@@ -27,6 +27,7 @@ to pre-0.7) must verify, chains from genesis must be stored, and the same single
 restricted to what their format commits to must be rejected.
 """
 import json
+import os
 import vlib
 
 
@@ -40,6 +41,17 @@ def run(ctx):
         return ctx.finish("model_checking", "replay of one recorded behaviour")
 
     thorough = not ctx.quick()
+    # moves into classes NO valid block has (a v3 transaction without an L1_GAS / L2_GAS bound) crash the verifier of the
+    # tree as it was (finding block-verify:crash:invalid-class*, fixed in juno by 4b991ba). They are offered in every
+    # run (VERIF_C02_MALFORMED=0 switches them off for development); the exhaustive configurations verify the repaired
+    # design (MalformedRefused) and keep the code as it was as an expected violation (BlockVerify_self_malformedcrash.cfg).
+    malformed = os.environ.get("VERIF_C02_MALFORMED", "1") != "0"
+
+    def sim_files(cfg):
+        if not malformed:
+            return None
+        with open(os.path.join(vlib.VERIF, "spec", "chain", cfg)) as f:
+            return {cfg: f.read().replace("MalformedMoves = FALSE", "MalformedMoves = TRUE")}
     ctx.tlc_check("chain", "MCBlockVerify.tla", "BlockVerify_quick.cfg", timeout=900)
     # the presence / value class dimension: shapes full / zero / void, every class field moved to every other class
     ctx.tlc_check("chain", "MCBlockVerify.tla", "BlockVerify_class.cfg", timeout=900)
@@ -68,7 +80,7 @@ def run(ctx):
         ctx.tlc_check("chain", "MCBlockVerify.tla", "BlockVerify_thorough.cfg", timeout=3000)
         ctx.tlc_check("chain", "MCBlockVerify.tla", "BlockVerify_class_thorough.cfg", timeout=3000)
         r = ctx.tlc_check("chain", "MCBlockVerify.tla", "BlockVerify_pending.cfg", timeout=3000, coverage=True)
-        vlib.require_actions_covered(r)
+        vlib.require_actions_covered(r, ignore=("OfferReclass",))   # (class moves: BlockVerify_class*.cfg)
 
     # behaviours: the cursor walks all (version, field) pairs; ~40% of the steps are tamperings
     cycles = 3 if thorough else 1
@@ -80,8 +92,9 @@ def run(ctx):
     run_i = 0
     ntampers = None
     while True:
-        got = ctx.tlc_simulate("chain", "BlockVerifyMBT.tla", "BlockVerify_sim_thorough.cfg" if thorough else "BlockVerify_sim.cfg",
-                               depth=5200, seed=ctx.seed * 1000 + run_i, timeout=900)
+        simcfg = "BlockVerify_sim_thorough.cfg" if thorough else "BlockVerify_sim.cfg"
+        got = ctx.tlc_simulate("chain", "BlockVerifyMBT.tla", simcfg, depth=5200, seed=ctx.seed * 1000 + run_i, timeout=900,
+                               files=sim_files(simcfg))
         run_i += 1
         for b in got:
             if isinstance(b, dict):
@@ -157,6 +170,7 @@ def run(ctx):
         moves_replayed.add((v, f) + tuple(ft.split(">")))
     ctx.coverage.pop("class_covered", None)
     ctx.coverage["class_moves_in_spec"] = len(want_moves)
+    ctx.coverage["malformed_class_moves_offered"] = malformed
     ctx.coverage["class_moves_replayed"] = len(moves_replayed)
     if not res.get("divergences") and moves_replayed != want_moves:
         raise vlib.Broken("class moves replayed differ from the specification's: missing %s" % sorted(want_moves - moves_replayed)[:8])
@@ -209,7 +223,8 @@ def run(ctx):
             raise vlib.Broken("inapplicable diffs not replayed with a real target: %s" % missing)
 
     fx = ctx.run_engine(binary, "TestBlockVerifyFixtures",
-                        {"repo": vlib.REPO, "legacy": tables["legacy"], "committed": tables["committed"], "classes": classes},
+                        {"repo": vlib.REPO, "legacy": tables["legacy"], "committed": tables["committed"], "classes": classes,
+                         "malformed": malformed},
                         timeout=3000)
     ctx.absorb(fx, "blockverify", "TestBlockVerifyFixtures")
 
